@@ -18,7 +18,7 @@ import aave_lib as A
 from common import Ctx, driver_json, fmt
 
 PROPERTY = "C13"
-LEAN_MODULES = ["Proofs.C13"]
+LEAN_MODULES = ["Proofs.C13", "Proofs.C13.Update"]
 DRIVERS = ["driver_aave"]
 RULE = ("random operation sequences (2-4 tokens, 27-digit indices, prices over 9 decades, risk tables with zero LTV / non-collateral / "
         "non-borrowable tokens) interleaving every public read with supply/withdraw/borrow/repay(cash|collateral)/change_collateral/"
@@ -32,8 +32,11 @@ ASSUMPTIONS = ["theorems: the bar's data has an index/rate row, a price and a ri
                "token that is held (Covers) and has non-zero indices (EnvPos); bars whose price vector lacks a held token are exercised by "
                "the oracle only (every valuation must raise KeyError, on cold caches and after an interrupted fill alike — repaired by c25cbec)",
                "no raise is excluded: DemeterError('variable_delt < actual_debt_to_liquidate') in _do_liquidate used to sit after the collateral "
-               "seizure and before the cache resets and was reachable at exact ties (repaired by d1c4970: checked before anything changes); "
-               "tie sequences exercise that path on every run",
+               "seizure and before the cache resets and was reachable at exact ties (repaired by d1c4970: checked before anything changes, and the "
+               "repayment is min-ed down); it is now proved unreachable (C13_liquidate_never_raises_debt_exceeds: monotone idempotent rounding, no "
+               "negative debt entry) and the hypothesis Aave.updWF is evaluated on every update() of this run, by the harness on the "
+               "implementation's state and by the driver on the model's: a raise on a well-formed state is a VIOLATION; tie sequences exercise "
+               "that path on every run",
                "broker.allow_negative_balance is False (the default)"]
 
 
@@ -181,6 +184,16 @@ def run_sequence(ctx: Ctx, rng, nsteps, reqs, meta, exact_env=False, pandas_stat
             env = env_next
         s1 = A.dump_state(m, b, actions, n0)
         case = {"env": A.env_json(env_used), "state": s0, "op": op}
+        wf = None
+        if op["kind"] == "update":
+            # the hypothesis of `C13_liquidate_never_raises_debt_exceeds_wf` / `C04_aave_update_completes`, evaluated on this very state:
+            # on a well-formed bar and state an open market's update() must not raise at all
+            wf = A.upd_wf(env_used, s0)
+            ctx.count("update_on_well_formed_state" if wf else "update_on_malformed_state")
+            if wf and env_used.get("isOpen", True) and outcome != "ok":
+                ctx.violate(f"update.raises-on-well-formed-state:{outcome}",
+                            f"update() raised {outcome} on an open market although the bar and the positions are well formed "
+                            f"(positive indices and prices, no negative balance, collateral with LT > 0)", case)
         if op["kind"] == "helper":
             ctx.case(f"helper:{op['view']}:{outcome}:{filled(s0)}", {"op": op, "outcome": outcome})
             core = lambda st: {k: st[k] for k in ("supplies", "borrows", "wallet", "hasUpdate")}    # noqa: E731
@@ -188,7 +201,7 @@ def run_sequence(ctx: Ctx, rng, nsteps, reqs, meta, exact_env=False, pandas_stat
                 ctx.violate(f"helper-writes:{op['view']}", f"the read-only helper {op} changed positions / wallet / log / has_update", case)
         else:
             reqs.append(A.step_request(env_used, s0, op))
-            meta.append(("step", case, outcome, result, s1, filled(s0)))
+            meta.append(("step", case, outcome, result, s1, filled(s0), wf))
         # ---- oracle: cached views == cold-cache views == Lean spec on the raw state
         toks = list(env["tokens"])
         warm, cold = observe_all(m, toks)
@@ -231,8 +244,10 @@ def compare(ctx: Ctx, reqs, meta, outs):
             ctx.disagree(f"driver error {o['error']}", mt[1])
             continue
         if mt[0] == "step":
-            _, case, outcome, result, s1, fl = mt
+            _, case, outcome, result, s1, fl, wf = mt
             op = case["op"]
+            if wf is not None and o.get("wf") != wf:
+                ctx.disagree(f"{op}: well-formedness (Aave.updWF) impl-side {wf} model {o.get('wf')}", case)
             name = op.get("view", op["kind"])
             if name == "update":
                 name += f":liq{sum(1 for a in s1['actions'] if a['kind'] == 'liquidation')}"
@@ -289,6 +304,9 @@ def replay(ctx: Ctx, case) -> bool:
     outcome, _ = A.apply_op(m, case["op"], env)
     warm, cold = observe_all(m, env["tokens"])
     ok = True
+    if case["op"]["kind"] == "update" and env.get("isOpen", True) and outcome != "ok" and A.upd_wf(env, case["state"]):
+        print(f"   update() raised {outcome} on a well-formed bar and state")
+        ok = False
     for v in A.VIEWS0:
         if not A.same(warm[v], cold[v]):
             print(f"   view {v}: cached {warm[v]} vs from scratch {cold[v]}")
